@@ -65,6 +65,22 @@ def history(rng, auth, method=None, calm=False):
                 s2['lines'] += [b'Connection: Upgrade', b'Upgrade: websocket']
                 s2['version'] = b'HTTP/1.1'
             steps.append(['client', P.wire(s2), s2])
+        elif r < 0.55:
+            # several requests (and maybe the beginning of another) in ONE piece: on_client_data loops over the remainder
+            specs = [P.mk_request(rng, method=rng.choice([b'GET', b'POST', b'HEAD']), auth_line=code_line if rng.random() < 0.3 else None)
+                     for _ in range(rng.choice([2, 2, 3]))]
+            if rng.random() < 0.2:
+                specs[0]['lines'] += [b'Connection: Upgrade', b'Upgrade: websocket']
+                specs[0]['version'] = b'HTTP/1.1'
+            raw = b''.join(P.wire(x) for x in specs)
+            if rng.random() < 0.4:
+                nxt = P.mk_request(rng, method=b'GET')
+                w = P.wire(nxt)
+                cut = rng.randrange(1, len(w))
+                steps.append(['client', raw + w[:cut], specs])
+                steps.append(['client', w[cut:], nxt])
+            else:
+                steps.append(['client', raw, specs])
         elif r < 0.8:
             steps.append(['upstream', rng.choice([b'HTTP/1.1 200 OK\r\nContent-Length: 2\r\n\r\nok', b'HTTP/1.1 204 No Content\r\n\r\n',
                                                   b'HTTP/1.1 200 OK\r\nContent-Length: 5\r\n\r\nab'])])
